@@ -217,7 +217,9 @@ type tableOp struct {
 	focus []uint64
 }
 
-func genTableOp(r *rand.Rand, cur []uint64, pick int) *tableOp {
+// smallTable: the block's label table has few slots.  ReplaceLabel counts voxels once per table slot holding the
+// target, which is quadratic for target 0 after a merge zeroed thousands of slots; target 0 is only used on small tables.
+func genTableOp(r *rand.Rand, cur []uint64, pick int, smallTable bool) *tableOp {
 	present := lg.LabelsOf(cur)
 	used := lg.SetOf(cur)
 	fresh := func() uint64 { return lg.FreshLabel(r, used) }
@@ -284,9 +286,14 @@ func genTableOp(r *rand.Rand, cur []uint64, pick int) *tableOp {
 			target = fresh() // absent
 		case 1:
 			target = 0
+			if !smallTable {
+				target = fresh()
+			}
 		default:
 			if t := pickPresent(r, present, 1, nil); len(t) > 0 {
 				target = t[0]
+			} else if !smallTable {
+				target = fresh()
 			}
 		}
 		switch r.Intn(5) {
@@ -414,7 +421,7 @@ func tableCase(c *lg.Case, size [3]int, kind string) {
 	nops := 1 + r.Intn(4)
 	var ops []string
 	for step := 0; step < nops; step++ {
-		op := genTableOp(r, cur, r.Intn(3))
+		op := genTableOp(r, cur, r.Intn(3), g.NLabels <= 64)
 		ops = append(ops, op.desc)
 		k.desc = base + " ops: " + strings.Join(ops, " ; ")
 		c.Begin(k.desc)
@@ -593,7 +600,7 @@ func splitCase(c *lg.Case, size [3]int, kind string, i int) {
 	cur, curB := g.A, b
 	// one third of the cases first edit the label table so that the split meets duplicate / zeroed slots
 	if i%3 == 2 {
-		op := genTableOp(r, cur, r.Intn(3))
+		op := genTableOp(r, cur, r.Intn(3), g.NLabels <= 64)
 		nb, err := op.apply(curB)
 		if err != nil || nb == nil {
 			return // reported by the table cases
